@@ -2,10 +2,12 @@ package vh
 
 import (
 	"context"
+	"crypto/rand"
 	"crypto/tls"
 	"crypto/x509"
 	"encoding/pem"
 	"fmt"
+	"golang.org/x/crypto/ssh"
 	"net"
 	"os"
 	"path/filepath"
@@ -63,6 +65,8 @@ func Farm() *TLSFarm {
 			panic(err)
 		}
 		os.WriteFile(filepath.Join(d, "client.crt"), PEMCert(der), 0o644)
+		// the same client certificate followed by its issuer (a leaf + chain bundle, as many deployments ship it)
+		os.WriteFile(filepath.Join(d, "client-chain.crt"), append(PEMCert(der), PEMCert(f.cas["caClients"].Raw)...), 0o644)
 		kb, _ := x509.MarshalPKCS8PrivateKey(Key("p256b"))
 		os.WriteFile(filepath.Join(d, "client.key"), pem.EncodeToMemory(&pem.Block{Type: "PRIVATE KEY", Bytes: kb}), 0o600)
 		// The "foreign" CA is the one CA this process's HOST trust store trusts (crypto/x509 loads the
@@ -82,6 +86,9 @@ func (f *TLSFarm) CAFile(name string) string { return filepath.Join(f.Dir, name+
 // ClientCertFile / ClientKeyFile are the RA's client credentials.
 func (f *TLSFarm) ClientCertFile() string { return filepath.Join(f.Dir, "client.crt") }
 func (f *TLSFarm) ClientKeyFile() string  { return filepath.Join(f.Dir, "client.key") }
+
+// ClientChainFile is the client certificate followed by the certificate of the CA that issued it.
+func (f *TLSFarm) ClientChainFile() string { return filepath.Join(f.Dir, "client-chain.crt") }
 
 // ClientCertDER returns the DER of the configured client certificate.
 func (f *TLSFarm) ClientCertDER() []byte {
@@ -112,6 +119,8 @@ func (f *TLSFarm) ServerCert(identity, ip string) tls.Certificate {
 		spec.Issuer, spec.IssuerKey = f.cas["caB"], caKeys["caB"]
 	case "foreign":
 		spec.Issuer, spec.IssuerKey = f.cas["caForeign"], caKeys["caForeign"]
+	case "clientsca": // issued by the CA that issues the RA's CLIENT certificate (never a configured server CA)
+		spec.Issuer, spec.IssuerKey = f.cas["caClients"], caKeys["caClients"]
 	case "selfsigned":
 	}
 	if identity == "expired" {
@@ -147,7 +156,7 @@ func (f *TLSFarm) ServerCert(identity, ip string) tls.Certificate {
 type CAServerSpec struct {
 	IP       string
 	Identity string // see ServerCert; "" = caA
-	// Behaviour: sign | rpcerr | empty | unparsable | hang | nolistener
+	// Behaviour: sign (fixed KeyText) | signreq (certifies the request's key) | rpcerr | empty | unparsable | hang | nolistener
 	Behaviour string
 	Code      int
 	KeyText   string // reply of a signing server
@@ -217,6 +226,20 @@ func (s *CAServer) PostUserSSHCertificate(ctx context.Context, req *pb.SSHCertif
 		case <-time.After(s.Spec.HangFor):
 		}
 		return nil, status.Error(codes.DeadlineExceeded, "verif: too late")
+	}
+	if behaviour == "signreq" {
+		// a real CA: certify the key of the request
+		pub, _, _, _, err := ssh.ParseAuthorizedKey([]byte(req.PublicKey))
+		if err != nil {
+			return nil, status.Error(codes.InvalidArgument, "verif: bad public key")
+		}
+		now := uint64(time.Now().Unix())
+		c := &ssh.Certificate{Key: pub, Serial: uint64(seen.Seq), CertType: ssh.UserCert, KeyId: req.KeyId, ValidPrincipals: req.Principals,
+			ValidAfter: now - 60, ValidBefore: now + req.Validity, Permissions: ssh.Permissions{Extensions: req.Extensions}}
+		if err := c.SignCert(rand.Reader, SSHSigner("ed25519a")); err != nil {
+			return nil, status.Error(codes.Internal, err.Error())
+		}
+		return &pb.SSHKey{Key: string(ssh.MarshalAuthorizedKey(c))}, nil
 	}
 	return &pb.SSHKey{Key: s.Spec.KeyText}, nil
 }
